@@ -14,7 +14,7 @@ def encParent : Option Nat → String
 
 /-- `brace conv <lines>` → `ok|<lines>|<parents>` or `err:<class>`:
 the texts `convert_junos_to_ios(lines)` returns and, per text, the index of its
-indentation parent (`r` for a root). -/
+indentation parent (`r` for a root); `brace txt <lines>` → texts only. -/
 def handle : List String → String
   | ["conv", ls] =>
     match decStrs ls with
@@ -23,6 +23,13 @@ def handle : List String → String
       match junosToIos lines with
       | .error e => errName e
       | .ok out => "ok|" ++ encStrs out ++ "|" ++ ",".intercalate ((indentParents out).map encParent)
+  | ["txt", ls] =>
+    match decStrs ls with
+    | none => "bad-request"
+    | some lines =>
+      match if lines = [] then convertJunosToIos Gen.junosStopWidth lines else junosToIos lines with
+      | .error e => errName e
+      | .ok out => "ok|" ++ encStrs out
   | _ => "bad-request"
 
 end Ccp.Drv.Brace
